@@ -469,16 +469,21 @@ Proof.
       unfold log_close in E. destruct (opened st); [|discriminate]. injection E as <-. cbn [segs wcarry]. split; [|intros _; exact HT0].
       intros Hpt. specialize (HTS Hpt). unfold TS. cbn [segs]. destruct (lvirt st); [constructor|exact HTS].
     - (* Publish *)
-      destruct (log_publish H st ms) as [[st' n]|e] eqn:E; cbn [lift fst]; [|split; [assumption|intros Hpt; specialize (Hw Hpt); lia]].
-      destruct HG as [(Ho & _)|[HI|HV]].
-      + unfold log_publish, get_cfg in E. rewrite Ho in E. discriminate.
-      + pose proof HI as (_ & _ & _ & _ & c & Hc & _). pose proof (Hp c Hc) as Hpc.
-        assert (HK : KInv (cparams c) st) by (rewrite Hpc; split; [exact HI|split; assumption]).
-        assert (Hboth : ptimes p = true -> TS st' /\ wcarry st' <= last_time T ms).
-        { intros Hpt. assert (Hct : ctimes c = true) by (rewrite <- Hpc in Hpt; exact Hpt).
-          exact (log_publish_ts c st ms st' n T HK (HTS Hpt) Hc Hct Hm Hb (Hw Hpt) HT0 Hok E). }
-        split; [intros Hpt; exact (proj1 (Hboth Hpt))|intros Hpt; exact (proj2 (Hboth Hpt))].
-      + destruct HV as (_ & _ & c & Hc & Hro). unfold log_publish, get_cfg in E. rewrite Hc in E. cbn [bind] in E. rewrite Hro in E. discriminate.
+      assert (Hpub : forall ms0 st' n, tmono T ms0 -> log_publish H st ms0 = Ok (st', n) ->
+                TSp p st' /\ (ptimes p = true -> wcarry st' <= last_time T ms0)).
+      { intros ms0 st' n Hok0 E. destruct HG as [(Ho & _)|[HI|HV]].
+        + unfold log_publish, get_cfg in E. rewrite Ho in E. discriminate.
+        + pose proof HI as (_ & _ & _ & _ & c & Hc & _). pose proof (Hp c Hc) as Hpc.
+          assert (HK : KInv (cparams c) st) by (rewrite Hpc; split; [exact HI|split; assumption]).
+          assert (Hboth : ptimes p = true -> TS st' /\ wcarry st' <= last_time T ms0).
+          { intros Hpt. assert (Hct : ctimes c = true) by (rewrite <- Hpc in Hpt; exact Hpt).
+            exact (log_publish_ts c st ms0 st' n T HK (HTS Hpt) Hc Hct Hm Hb (Hw Hpt) HT0 Hok0 E). }
+          split; [intros Hpt; exact (proj1 (Hboth Hpt))|intros Hpt; exact (proj2 (Hboth Hpt))].
+        + destruct HV as (_ & _ & c & Hc & Hro). unfold log_publish, get_cfg in E. rewrite Hc in E. cbn [bind] in E. rewrite Hro in E. discriminate. }
+      unfold pub_step. destruct (log_publish H st ms) as [[st' n]|e] eqn:E; cbn [fst]; [exact (Hpub ms st' n Hok E)|].
+      destruct e; try (split; [assumption|intros Hpt; specialize (Hw Hpt); lia]).
+      unfold rolled. destruct (log_publish H st []) as [[st0 n0]|e0] eqn:E0; [|split; [assumption|intros Hpt; specialize (Hw Hpt); lia]].
+      destruct (Hpub [] st0 n0 I E0) as [A B]. split; [exact A|]. intros Hpt. specialize (B Hpt). unfold last_time in B at 1. cbn in B. lia.
     - (* Delete *)
       destruct (log_delete H st offs) as [[st' r]|e] eqn:E; cbn [lift fst]; [|split; assumption].
       destruct HG as [(Ho & _)|[HI|HV]].
